@@ -1,4 +1,260 @@
-import PrimitivModel.Model.KernelsArith
+import PrimitivModel.Analysis.Scalar
+import PrimitivModel.Gen.Elementwise
+import Mathlib.Tactic.Ring
+import Mathlib.Tactic.Linarith
+/-
+C08 (all CPU backends compute the same function), arithmetic kernels.
+
+`Elementwise.naive_eq_eigen_<kernel>`: for every elementwise kernel pair the
+formula generated from devices/naive/ops and the one generated from
+devices/eigen/ops denote the same function over ℝ.  Most pairs are equal after
+token normalisation (`syntactic_pairs`); the `select` / `sign` forms (abs_bw,
+prelu, elu) need a case split.  The loop kernels (binary backward, matmul,
+conv2d, max_pool2d, logsumexp, pown, in-place) have one model for both
+backends: each backend is tied to that model by the correspondence run.
+-/
 namespace Primitiv.C08.Arith
-theorem placeholder : True := trivial
+open Primitiv.Gen.Elementwise Primitiv.Analysis
+
+/-- unfold both formulas, interpret the literals, then `ring` or a case split on the comparisons -/
+local macro "ew_tac" a:ident b:ident : tactic =>
+  `(tactic| (
+    unfold $a $b
+    simp only [lit_zero, lit_one, lit_half, fns_exp, fns_log, fns_tanh, fns_sqrt, fns_sin, fns_cos, fns_tan,
+      fns_abs, fns_sign, fns_pow, sgn, gt_iff_lt]
+    first
+      | rfl
+      | ring
+      | (split_ifs <;> first | ring | (exfalso; linarith) | (simp; try ring))))
+
+namespace Elementwise
+
+theorem naive_eq_eigen_abs_bw (x y gy : ℝ) :
+    naive_abs_bw realFns x y gy = eigen_abs_bw realFns x y gy := by
+  ew_tac naive_abs_bw eigen_abs_bw
+
+theorem naive_eq_eigen_abs_fw (x : ℝ) :
+    naive_abs_fw realFns x = eigen_abs_fw realFns x := by
+  ew_tac naive_abs_fw eigen_abs_fw
+
+theorem naive_eq_eigen_add_fw (a b : ℝ) :
+    naive_add_fw realFns a b = eigen_add_fw realFns a b := by
+  ew_tac naive_add_fw eigen_add_fw
+
+theorem naive_eq_eigen_add_const_bw (x y gy k : ℝ) :
+    naive_add_const_bw realFns x y gy k = eigen_add_const_bw realFns x y gy k := by
+  ew_tac naive_add_const_bw eigen_add_const_bw
+
+theorem naive_eq_eigen_add_const_fw (x k : ℝ) :
+    naive_add_const_fw realFns x k = eigen_add_const_fw realFns x k := by
+  ew_tac naive_add_const_fw eigen_add_const_fw
+
+theorem naive_eq_eigen_add_scalar_fw (x k : ℝ) :
+    naive_add_scalar_fw realFns x k = eigen_add_scalar_fw realFns x k := by
+  ew_tac naive_add_scalar_fw eigen_add_scalar_fw
+
+theorem naive_eq_eigen_cos_bw (x y gy : ℝ) :
+    naive_cos_bw realFns x y gy = eigen_cos_bw realFns x y gy := by
+  ew_tac naive_cos_bw eigen_cos_bw
+
+theorem naive_eq_eigen_cos_fw (x : ℝ) :
+    naive_cos_fw realFns x = eigen_cos_fw realFns x := by
+  ew_tac naive_cos_fw eigen_cos_fw
+
+theorem naive_eq_eigen_divide_fw (a b : ℝ) :
+    naive_divide_fw realFns a b = eigen_divide_fw realFns a b := by
+  ew_tac naive_divide_fw eigen_divide_fw
+
+theorem naive_eq_eigen_divide_const_l_bw (x y gy k : ℝ) :
+    naive_divide_const_l_bw realFns x y gy k = eigen_divide_const_l_bw realFns x y gy k := by
+  ew_tac naive_divide_const_l_bw eigen_divide_const_l_bw
+
+theorem naive_eq_eigen_divide_const_l_fw (x k : ℝ) :
+    naive_divide_const_l_fw realFns x k = eigen_divide_const_l_fw realFns x k := by
+  ew_tac naive_divide_const_l_fw eigen_divide_const_l_fw
+
+theorem naive_eq_eigen_divide_const_r_bw (x y gy k : ℝ) :
+    naive_divide_const_r_bw realFns x y gy k = eigen_divide_const_r_bw realFns x y gy k := by
+  ew_tac naive_divide_const_r_bw eigen_divide_const_r_bw
+
+theorem naive_eq_eigen_divide_const_r_fw (x k : ℝ) :
+    naive_divide_const_r_fw realFns x k = eigen_divide_const_r_fw realFns x k := by
+  ew_tac naive_divide_const_r_fw eigen_divide_const_r_fw
+
+theorem naive_eq_eigen_divide_scalar_l_fw (x k : ℝ) :
+    naive_divide_scalar_l_fw realFns x k = eigen_divide_scalar_l_fw realFns x k := by
+  ew_tac naive_divide_scalar_l_fw eigen_divide_scalar_l_fw
+
+theorem naive_eq_eigen_divide_scalar_r_fw (x k : ℝ) :
+    naive_divide_scalar_r_fw realFns x k = eigen_divide_scalar_r_fw realFns x k := by
+  ew_tac naive_divide_scalar_r_fw eigen_divide_scalar_r_fw
+
+theorem naive_eq_eigen_elu_bw (x y gy k : ℝ) :
+    naive_elu_bw realFns x y gy k = eigen_elu_bw realFns x y gy k := by
+  ew_tac naive_elu_bw eigen_elu_bw
+
+theorem naive_eq_eigen_elu_fw (x k : ℝ) :
+    naive_elu_fw realFns x k = eigen_elu_fw realFns x k := by
+  ew_tac naive_elu_fw eigen_elu_fw
+
+theorem naive_eq_eigen_exp_bw (x y gy : ℝ) :
+    naive_exp_bw realFns x y gy = eigen_exp_bw realFns x y gy := by
+  ew_tac naive_exp_bw eigen_exp_bw
+
+theorem naive_eq_eigen_exp_fw (x : ℝ) :
+    naive_exp_fw realFns x = eigen_exp_fw realFns x := by
+  ew_tac naive_exp_fw eigen_exp_fw
+
+theorem naive_eq_eigen_log_bw (x y gy : ℝ) :
+    naive_log_bw realFns x y gy = eigen_log_bw realFns x y gy := by
+  ew_tac naive_log_bw eigen_log_bw
+
+theorem naive_eq_eigen_log_fw (x : ℝ) :
+    naive_log_fw realFns x = eigen_log_fw realFns x := by
+  ew_tac naive_log_fw eigen_log_fw
+
+theorem naive_eq_eigen_multiply_fw (a b : ℝ) :
+    naive_multiply_fw realFns a b = eigen_multiply_fw realFns a b := by
+  ew_tac naive_multiply_fw eigen_multiply_fw
+
+theorem naive_eq_eigen_multiply_const_bw (x y gy k : ℝ) :
+    naive_multiply_const_bw realFns x y gy k = eigen_multiply_const_bw realFns x y gy k := by
+  ew_tac naive_multiply_const_bw eigen_multiply_const_bw
+
+theorem naive_eq_eigen_multiply_const_fw (x k : ℝ) :
+    naive_multiply_const_fw realFns x k = eigen_multiply_const_fw realFns x k := by
+  ew_tac naive_multiply_const_fw eigen_multiply_const_fw
+
+theorem naive_eq_eigen_multiply_scalar_fw (x k : ℝ) :
+    naive_multiply_scalar_fw realFns x k = eigen_multiply_scalar_fw realFns x k := by
+  ew_tac naive_multiply_scalar_fw eigen_multiply_scalar_fw
+
+theorem naive_eq_eigen_negate_fw (x : ℝ) :
+    naive_negate_fw realFns x = eigen_negate_fw realFns x := by
+  ew_tac naive_negate_fw eigen_negate_fw
+
+theorem naive_eq_eigen_pow_fw (a b : ℝ) :
+    naive_pow_fw realFns a b = eigen_pow_fw realFns a b := by
+  ew_tac naive_pow_fw eigen_pow_fw
+
+theorem naive_eq_eigen_pow_const_l_bw (x y gy k : ℝ) :
+    naive_pow_const_l_bw realFns x y gy k = eigen_pow_const_l_bw realFns x y gy k := by
+  ew_tac naive_pow_const_l_bw eigen_pow_const_l_bw
+
+theorem naive_eq_eigen_pow_const_l_fw (x k : ℝ) :
+    naive_pow_const_l_fw realFns x k = eigen_pow_const_l_fw realFns x k := by
+  ew_tac naive_pow_const_l_fw eigen_pow_const_l_fw
+
+theorem naive_eq_eigen_pow_const_r_bw (x y gy k : ℝ) :
+    naive_pow_const_r_bw realFns x y gy k = eigen_pow_const_r_bw realFns x y gy k := by
+  ew_tac naive_pow_const_r_bw eigen_pow_const_r_bw
+
+theorem naive_eq_eigen_pow_const_r_fw (x k : ℝ) :
+    naive_pow_const_r_fw realFns x k = eigen_pow_const_r_fw realFns x k := by
+  ew_tac naive_pow_const_r_fw eigen_pow_const_r_fw
+
+theorem naive_eq_eigen_pow_scalar_l_fw (x k : ℝ) :
+    naive_pow_scalar_l_fw realFns x k = eigen_pow_scalar_l_fw realFns x k := by
+  ew_tac naive_pow_scalar_l_fw eigen_pow_scalar_l_fw
+
+theorem naive_eq_eigen_pow_scalar_r_fw (x k : ℝ) :
+    naive_pow_scalar_r_fw realFns x k = eigen_pow_scalar_r_fw realFns x k := by
+  ew_tac naive_pow_scalar_r_fw eigen_pow_scalar_r_fw
+
+theorem naive_eq_eigen_prelu_bw (x y gy k : ℝ) :
+    naive_prelu_bw realFns x y gy k = eigen_prelu_bw realFns x y gy k := by
+  ew_tac naive_prelu_bw eigen_prelu_bw
+
+theorem naive_eq_eigen_prelu_fw (x k : ℝ) :
+    naive_prelu_fw realFns x k = eigen_prelu_fw realFns x k := by
+  ew_tac naive_prelu_fw eigen_prelu_fw
+
+theorem naive_eq_eigen_sigmoid_bw (x y gy : ℝ) :
+    naive_sigmoid_bw realFns x y gy = eigen_sigmoid_bw realFns x y gy := by
+  ew_tac naive_sigmoid_bw eigen_sigmoid_bw
+
+theorem naive_eq_eigen_sigmoid_fw (x : ℝ) :
+    naive_sigmoid_fw realFns x = eigen_sigmoid_fw realFns x := by
+  ew_tac naive_sigmoid_fw eigen_sigmoid_fw
+
+theorem naive_eq_eigen_sin_bw (x y gy : ℝ) :
+    naive_sin_bw realFns x y gy = eigen_sin_bw realFns x y gy := by
+  ew_tac naive_sin_bw eigen_sin_bw
+
+theorem naive_eq_eigen_sin_fw (x : ℝ) :
+    naive_sin_fw realFns x = eigen_sin_fw realFns x := by
+  ew_tac naive_sin_fw eigen_sin_fw
+
+theorem naive_eq_eigen_softplus_bw (x y gy : ℝ) :
+    naive_softplus_bw realFns x y gy = eigen_softplus_bw realFns x y gy := by
+  ew_tac naive_softplus_bw eigen_softplus_bw
+
+theorem naive_eq_eigen_softplus_fw (x : ℝ) :
+    naive_softplus_fw realFns x = eigen_softplus_fw realFns x := by
+  ew_tac naive_softplus_fw eigen_softplus_fw
+
+theorem naive_eq_eigen_sqrt_bw (x y gy : ℝ) :
+    naive_sqrt_bw realFns x y gy = eigen_sqrt_bw realFns x y gy := by
+  ew_tac naive_sqrt_bw eigen_sqrt_bw
+
+theorem naive_eq_eigen_sqrt_fw (x : ℝ) :
+    naive_sqrt_fw realFns x = eigen_sqrt_fw realFns x := by
+  ew_tac naive_sqrt_fw eigen_sqrt_fw
+
+theorem naive_eq_eigen_subtract_fw (a b : ℝ) :
+    naive_subtract_fw realFns a b = eigen_subtract_fw realFns a b := by
+  ew_tac naive_subtract_fw eigen_subtract_fw
+
+theorem naive_eq_eigen_subtract_const_l_bw (x y gy k : ℝ) :
+    naive_subtract_const_l_bw realFns x y gy k = eigen_subtract_const_l_bw realFns x y gy k := by
+  ew_tac naive_subtract_const_l_bw eigen_subtract_const_l_bw
+
+theorem naive_eq_eigen_subtract_const_l_fw (x k : ℝ) :
+    naive_subtract_const_l_fw realFns x k = eigen_subtract_const_l_fw realFns x k := by
+  ew_tac naive_subtract_const_l_fw eigen_subtract_const_l_fw
+
+theorem naive_eq_eigen_subtract_const_r_bw (x y gy k : ℝ) :
+    naive_subtract_const_r_bw realFns x y gy k = eigen_subtract_const_r_bw realFns x y gy k := by
+  ew_tac naive_subtract_const_r_bw eigen_subtract_const_r_bw
+
+theorem naive_eq_eigen_subtract_const_r_fw (x k : ℝ) :
+    naive_subtract_const_r_fw realFns x k = eigen_subtract_const_r_fw realFns x k := by
+  ew_tac naive_subtract_const_r_fw eigen_subtract_const_r_fw
+
+theorem naive_eq_eigen_subtract_scalar_l_fw (x k : ℝ) :
+    naive_subtract_scalar_l_fw realFns x k = eigen_subtract_scalar_l_fw realFns x k := by
+  ew_tac naive_subtract_scalar_l_fw eigen_subtract_scalar_l_fw
+
+theorem naive_eq_eigen_subtract_scalar_r_fw (x k : ℝ) :
+    naive_subtract_scalar_r_fw realFns x k = eigen_subtract_scalar_r_fw realFns x k := by
+  ew_tac naive_subtract_scalar_r_fw eigen_subtract_scalar_r_fw
+
+theorem naive_eq_eigen_tan_bw (x y gy : ℝ) :
+    naive_tan_bw realFns x y gy = eigen_tan_bw realFns x y gy := by
+  ew_tac naive_tan_bw eigen_tan_bw
+
+theorem naive_eq_eigen_tan_fw (x : ℝ) :
+    naive_tan_fw realFns x = eigen_tan_fw realFns x := by
+  ew_tac naive_tan_fw eigen_tan_fw
+
+theorem naive_eq_eigen_tanh_bw (x y gy : ℝ) :
+    naive_tanh_bw realFns x y gy = eigen_tanh_bw realFns x y gy := by
+  ew_tac naive_tanh_bw eigen_tanh_bw
+
+theorem naive_eq_eigen_tanh_fw (x : ℝ) :
+    naive_tanh_fw realFns x = eigen_tanh_fw realFns x := by
+  ew_tac naive_tanh_fw eigen_tanh_fw
+
+/-- The kernels whose two formulas are already equal as normalised token strings (computed by the
+translator); a change of this list means the two sources diverged textually. -/
+theorem syntactic_pairs : syntacticallyDifferent = ["abs_bw", "elu_bw", "elu_fw", "prelu_bw", "prelu_fw"] := by
+  decide
+
+/-- every formula of both backends is inside the translated subset -/
+theorem all_supported : unsupportedFormulas = [] := by decide
+
+/-- both backends define the same set of elementwise kernels (no normal form is absent) -/
+theorem same_kernel_set : (normalForms.filter fun r => r.2.1 == "-" || r.2.2 == "-") = [] := by decide
+
+end Elementwise
 end Primitiv.C08.Arith
